@@ -15,6 +15,12 @@ def cmparr(x,y):
     return c
                 
 
+def _int2float(x):
+    try:
+        return float(x)
+    except OverflowError: ## an int beyond the range of a double ranks with the infinity of its sign
+        return float('inf') if x > 0 else float('-inf')
+
 def cmp(x,y):
     """
     Implements lexcompare while allowing for comparison of different types.
@@ -46,8 +52,8 @@ def cmp(x,y):
     if x is y:
         return 0
     x,y = as_primitive([x,y])
-    x = float(x) if isinstance(x, int) and not isinstance(x, bool) else x
-    y = float(y) if isinstance(y, int) and not isinstance(y, bool) else y
+    x = _int2float(x) if isinstance(x, int) and not isinstance(x, bool) else x
+    y = _int2float(y) if isinstance(y, int) and not isinstance(y, bool) else y
     tx = str(type(x))
     ty = str(type(y))
     if tx<ty:
